@@ -114,8 +114,9 @@ Fixpoint imap_insert {A} (k : value) (x : A) (l : list (value * A)) : list (valu
 
 (* ---- Struct::from_proto_descriptor_and_msg / new_value / new_array / new_map ----
    [present]: the enclosing message exists (msg = Some); [v]: the field's value in it.
-   [enums]: generate the extra fields (generate_fields_for_enums / compile time). *)
-Fixpoint new_value (enums : bool) (syn : syntax) (t : ty) (present : bool) (v : option value) {struct t} : tv :=
+   [enums]: generate the extra fields (generate_fields_for_enums).
+   [ct]: generate_compile_time_fields (true only when the compiler builds the module's structure). *)
+Fixpoint new_value (ct enums : bool) (syn : syntax) (t : ty) (present : bool) (v : option value) {struct t} : tv :=
   match t with
   | TInt i => match v with
               | Some (VInt z) => RInt (Some (as_i64 i z))
@@ -142,32 +143,35 @@ Fixpoint new_value (enums : bool) (syn : syntax) (t : ty) (present : bool) (v : 
            | [] => []
            | FD n num ign t' :: r =>
                (FD n num ign t',
-                new_value enums syn' t' pres (match m with Some m => assoc_n num m | None => None end)) :: go r
+                new_value ct enums syn' t' pres (match m with Some m => assoc_n num m | None => None end)) :: go r
            end) fs in
       let vis := sort_by (fun p => fd_number (fst p)) (filter (fun p => negb (fd_ignored (fst p))) built) in
       RStruct (map (fun p => (fd_name (fst p), snd p)) vis
                ++ (if enums then map (fun n => (n, RInt (Some 0))) extra else []))
   | TArr e =>
       match v with
-      | Some (VArr l) => RArr (map (fun x => new_value enums syn e true (Some x)) l)
+      | Some (VArr l) => RArr (map (fun x => new_value ct enums syn e true (Some x)) l)
       | _ => if present then RArr []
              else match e with
-                  | TMsg _ _ _ => RArr [new_value enums syn e false None]   (* one template struct *)
+                  | TMsg _ _ _ =>
+                      (* one template item describing the element type, at compile time only
+                         (generate_compile_time_fields); at scan time the array is empty *)
+                      if ct then RArr [new_value ct enums syn e false None] else RArr []
                   | _ => RArr []
                   end
       end
   | TMap k vt =>
       match v with
       | Some (VMap l) =>
-          RMap false (fold_left (fun acc kv => imap_insert (conv_key k (fst kv)) (new_value enums syn vt true (Some (snd kv))) acc) l [])
+          RMap false (fold_left (fun acc kv => imap_insert (conv_key k (fst kv)) (new_value ct enums syn vt true (Some (snd kv))) acc) l [])
       | _ => if present then RMap false [] else RMap true []
       end
   end.
 
 (* the structure of a module: scan time (message given) and compile time (descriptor only) *)
 Definition struct_of (root : ty) (msg : option value) (enums : bool) : tv :=
-  new_value enums Proto2 root (match msg with Some _ => true | None => false end) msg.
-Definition compile_struct (root : ty) : tv := new_value true Proto2 root false None.
+  new_value false enums Proto2 root (match msg with Some _ => true | None => false end) msg.
+Definition compile_struct (root : ty) : tv := new_value true true Proto2 root false None.
 
 (* ---- paths ---- *)
 Inductive step := SField (name : N) | SIndex (i : Z) | SKey (k : value).
@@ -334,51 +338,6 @@ Fixpoint get (syn : syntax) (t : ty) (present : bool) (v : option value) (p : li
 
 Definition get_root (root : ty) (msg : option value) (p : list step) : res :=
   get Proto2 root (match msg with Some _ => true | None => false end) msg p.
-
-(* ---- the one place where the code departs from the specification ----
-   new_array builds, for a repeated MESSAGE field of an ABSENT message, an array
-   holding one template structure.  [template_free] / [no_template] say that a
-   path does not touch such an array. *)
-Definition template_free (t : ty) (present : bool) (v : option value) : bool :=
-  match t with
-  | TArr (TMsg _ _ _) => match v with Some (VArr _) => true | _ => present end
-  | _ => true
-  end.
-
-Fixpoint no_template (t : ty) (present : bool) (v : option value) (p : list step) : bool :=
-  template_free t present v &&
-  match p with
-  | [] => true
-  | SField n :: r =>
-      match t with
-      | TMsg _ fs _ =>
-          match find_field n fs with
-          | Some f => match v with
-                      | Some (VMsg m) => no_template (fd_ty f) true (assoc_n (fd_number f) m) r
-                      | _ => no_template (fd_ty f) false None r
-                      end
-          | None => true
-          end
-      | _ => true
-      end
-  | SIndex i :: r =>
-      match t, v with
-      | TArr e, Some (VArr l) => match nth_error l (Z.to_nat i) with
-                                 | Some x => no_template e true (Some x) r
-                                 | None => true
-                                 end
-      | _, _ => true
-      end
-  | SKey k :: r =>
-      match t, v with
-      | TMap kt vt, Some (VMap l) =>
-          match assoc_k k (fold_left (fun acc kv => imap_insert (conv_key kt (fst kv)) (snd kv) acc) l []) with
-          | Some x => no_template vt true (Some x) r
-          | None => true
-          end
-      | _, _ => true
-      end
-  end.
 
 (* ---- well-formedness of a descriptor ---- *)
 Fixpoint nodup_n (l : list N) : bool :=
